@@ -17,6 +17,14 @@ def main():
     job = json.load(open(sys.argv[1]))
     out_path = sys.argv[2]
     faulthandler.enable()
+    try:
+        # safety net: a shard that explodes (combinatorial ALL set) dies alone with MemoryError -> inconclusive
+        import resource
+
+        gb = float(os.environ.get("VERIF_SHARD_MEM_GB", "6"))
+        resource.setrlimit(resource.RLIMIT_AS, (int(gb * 2**30), int(gb * 2**30)))
+    except (ImportError, ValueError, OSError):
+        pass
     if job.get("timeout"):
         # watchdog: dump stacks shortly before the parent kills us
         faulthandler.dump_traceback_later(max(1, job["timeout"] - 2), exit=False)
